@@ -14,9 +14,50 @@ import (
 // shifts, not execution: no concrete input value exists.
 
 type bit struct {
-	k   byte   // '0', '1', 'i' input, '?' unknown
+	k   byte   // '0', '1', 'i' input, 'n' negated input, '?' unknown
 	src string // input name
 	idx int    // input bit index
+}
+
+func (b bit) not() bit {
+	switch b.k {
+	case '0':
+		return bit{k: '1'}
+	case '1':
+		return bit{k: '0'}
+	case 'i':
+		return bit{k: 'n', src: b.src, idx: b.idx}
+	case 'n':
+		return bit{k: 'i', src: b.src, idx: b.idx}
+	}
+	return bit{k: '?'}
+}
+
+func (a bitvec) xor(b bitvec) bitvec {
+	var r bitvec
+	for i := range r {
+		switch {
+		case a[i].k == '0':
+			r[i] = b[i]
+		case b[i].k == '0':
+			r[i] = a[i]
+		case a[i].k == '1':
+			r[i] = b[i].not()
+		case b[i].k == '1':
+			r[i] = a[i].not()
+		default:
+			r[i] = bit{k: '?'}
+		}
+	}
+	return r
+}
+
+func (a bitvec) andNot(b bitvec) bitvec {
+	var nb bitvec
+	for i := range nb {
+		nb[i] = b[i].not()
+	}
+	return a.and(nb)
 }
 
 type bitvec [64]bit
@@ -130,6 +171,8 @@ func (b bit) String() string {
 		return string(b.k)
 	case 'i':
 		return fmt.Sprintf("%s[%d]", b.src, b.idx)
+	case 'n':
+		return fmt.Sprintf("!%s[%d]", b.src, b.idx)
 	}
 	return "?"
 }
@@ -225,6 +268,10 @@ func (env *bvEnv) eval(e ast.Expr) bitvec {
 			return env.eval(x.X).and(env.eval(x.Y))
 		case token.OR:
 			return env.eval(x.X).or(env.eval(x.Y))
+		case token.XOR:
+			return env.eval(x.X).xor(env.eval(x.Y))
+		case token.AND_NOT:
+			return env.eval(x.X).andNot(env.eval(x.Y))
 		case token.SHL, token.SHR:
 			n, ok := p.constInt64(x.Y)
 			if !ok || n < 0 || n > 64 {
